@@ -189,10 +189,10 @@ def run(ctx):
 
     # ---------------------------------------------------------------- R13.c
     mk = repo.find_class("MakespanReward")
-    _makespan_shape(ctx, mk)
+    ctx.attempt(_makespan_shape, ctx, mk)
     # ---------------------------------------------------------------- R13.d
     it = repo.find_class("IdleTimeReward")
-    _idle_shape(ctx, it)
+    ctx.attempt(_idle_shape, ctx, it)
     # per-machine / per-job state kept by any reward: indexed by the scheduled op only
     for c in subs:
         upd = repo.method(c, "update")
@@ -337,22 +337,32 @@ def _idle_shape(ctx, it):
     # the previous operation is the one *in front of* the new one in the
     # machine's list; searching the live list by time finds the new operation
     # itself whenever its duration is zero (end == start)
-    for n in own_nodes(upd.node):
+    import re as _re
+    from ..lifecycle import Lifecycle
+
+    # update itself (private steps inlined) and the methods it reaches on the
+    # same object (a search helper that returns from inside its loop cannot
+    # be inlined)
+    scope = [(upd, n) for n in own_nodes(upd.node)]
+    for f, _via in Lifecycle(ctx).self_closure(it.methods["update"], it):
+        if f is not it.methods["update"]:
+            scope += [(f, n) for n in own_nodes(f.node)]
+    for fsc, n in scope:
         its = []
         if isinstance(n, ast.For):
             its = [(n.iter, [x for x in ast.walk(n) if isinstance(x, ast.If)])]
         elif isinstance(n, (ast.GeneratorExp, ast.ListComp)):
             its = [(g.iter, list(g.ifs)) for g in n.generators]
         for itx, conds in its:
-            t = ctx.norm.xtext(upd, itx).replace(" ", "")
-            live = t.endswith(f"schedule.schedule[{sop}.machine_id]") or t.endswith(f"schedule.schedule[{sop}.machine_id])")
-            if live and any("end_time" in ctx.norm.xtext(upd, c.test if isinstance(c, ast.If) else c) for c in conds):
+            t = ctx.norm.xtext(fsc, itx).replace(" ", "")
+            live = bool(_re.search(r"schedule\.schedule\[\w+\.machine_id\]\)?$", t))
+            if live and any("end_time" in ctx.norm.xtext(fsc, c.test if isinstance(c, ast.If) else c) for c in conds):
                 chk.violation(
-                    "R13.d", upd, n,
+                    "R13.d", fsc, n,
                     "the previous operation is searched by time in the machine's live list, which already contains the "
                     "operation just scheduled: a zero-duration operation (end == start) is found as its own predecessor "
                     "and the idle gap in front of it is rewarded as 0",
-                    loc=upd.loc(n),
+                    loc=fsc.loc(n),
                 )
                 return
     if not (isinstance(val, ast.UnaryOp) and isinstance(val.op, ast.USub)):
